@@ -501,6 +501,9 @@ impl HashColumn {
 
 			for entry in &self.reindex.read().queue {
 				if let ReindexEntry::RefCount(table) = entry {
+					if !table.has_entries() {
+						continue
+					}
 					for index in 0..table.id.total_chunks() {
 						let entries = table.table_entries(index)?;
 						for entry in entries.iter() {
@@ -513,7 +516,7 @@ impl HashColumn {
 			}
 
 			let table = &tables.ref_count;
-			if let Some(table) = table {
+			if let Some(table) = table.as_ref().filter(|t| t.has_entries()) {
 				for index in 0..table.id.total_chunks() {
 					let entries = table.table_entries(index)?;
 					for entry in entries.iter() {
